@@ -14,6 +14,7 @@ CONSTANTS
   PeerFaults <- Faults
   DeadlineBeforeLock = FALSE
   NoGuard = FALSE
+  GuardPerClient = FALSE
   RearmPerRead = FALSE
   NoCloseOnError = FALSE
 VIEW View
@@ -32,3 +33,4 @@ INVARIANT DeadlineFromAsk
 INVARIANT NoEarlyGiveUp
 INVARIANT BoundedReturn
 INVARIANT Released
+INVARIANT GuardExclusive
